@@ -125,7 +125,7 @@ def scenario(job):
         for i, (where, d) in enumerate(sn.snaps):
             allvariants.append((where, 'snapshot', d))
             if i > 0:
-                for (rel, n, vd) in crash.torn_variants(dirs[i - 1], d, store, 'torn%03d' % i):
+                for (rel, n, vd) in crash.torn_variants(dirs[i - 1], d, store, 'torn%03d' % i, inplace=sn.inplace_files(i)):
                     allvariants.append((where, 'torn %s to %d bytes' % (rel, n), vd))
         res['variants'] = len(allvariants) - len(sn.snaps)
         for (where, what, d) in allvariants:
@@ -260,7 +260,7 @@ def scenario_ragged(job):
         for i, (where, d) in enumerate(sn.snaps):
             allv.append((where, 'snapshot', d))
             if i > 0:
-                for (rel, n, vd) in crash.torn_variants(dirs[i - 1], d, store, 'torn%03d' % i):
+                for (rel, n, vd) in crash.torn_variants(dirs[i - 1], d, store, 'torn%03d' % i, inplace=sn.inplace_files(i)):
                     allv.append((where, 'torn %s to %d bytes' % (rel, n), vd))
         res['variants'] = len(allv) - len(sn.snaps)
         views = []
@@ -407,7 +407,11 @@ def run(tier, seed):
                     keep.append(i)
             idxs = keep
         for i in idxs:
-            jobs.append((gi, i, rnd.randrange(ncfg)))
+            cfgi = rnd.randrange(ncfg)
+            if macros[i].name == 'M_Call' and i % 2 == 0:
+                # metadata values whose JSON texts have equal length (a torn in-place rewrite would still parse)
+                cfgi = 33 + rnd.randrange(6)
+            jobs.append((gi, i, cfgi))
     batches = [jobs[i:i + 6] for i in range(0, len(jobs), 6)]
     results = []
     with mp.get_context('fork').Pool(16) as pool:
